@@ -100,17 +100,72 @@ def extract():
             rw = n
     if rw is None:
         raise ExtractError("random_walk not found")
-    sel = [n for n in ast.walk(rw) if isinstance(n, ast.For) and any(
-        isinstance(x, ast.Compare) and isinstance(x.left, ast.Name) and x.left.id == "cur_prob" for x in ast.walk(n))]
-    # the outer per-position loop contains the inner one: keep the loops that directly test cur_prob
-    sel = [n for n in sel if any(isinstance(b, ast.If) and any(isinstance(x, ast.Name) and x.id == "cur_prob" for x in ast.walk(b.test)) for b in n.body)]
+    C["walk_fallback_last"] = _walk_fallback(rw)
+    return C
+
+
+def _walk_fallback(rw):
+    """Does each of the two selection loops of random_walk fall back to the LAST entry when the
+    running sum never reaches the draw?  Independent of variable names.  A selection loop is a
+    for loop with, directly in its body, an `if` that ends in `break`.  Two spellings of the
+    fall-back are recognised:
+      * a for ... else block;
+      * a sentinel: `x = None` before the loop, `x = <entry>` in the breaking branch and, as the
+        next statement after the loop, `if x is None: x = <...>[-1]`.
+    (That the selected entry IS what the model selects is established by the translator tie,
+    harness/translate_small.py + SmallGenProofsWalk.v; this constant only picks the variant of
+    the model the correspondence runs.)"""
+    def breaking_if(loop):
+        for b in loop.body:
+            if isinstance(b, ast.If) and b.body and isinstance(b.body[-1], ast.Break):
+                return b
+        return None
+
+    # every statement list of the function, to find what follows a loop
+    blocks = []
+    for n in ast.walk(rw):
+        for fld in ("body", "orelse", "finalbody"):
+            v = getattr(n, fld, None)
+            if isinstance(v, list) and v and isinstance(v[0], ast.stmt):
+                blocks.append(v)
+
+    def sentinel_fallback(loop):
+        br = breaking_if(loop)
+        set_in_branch = {t.id for st in br.body if isinstance(st, ast.Assign)
+                         for t in st.targets if isinstance(t, ast.Name)}
+        for blk in blocks:
+            for i, st in enumerate(blk):
+                if st is not loop:
+                    continue
+                none_before = {t.id for prev in blk[:i] if isinstance(prev, ast.Assign)
+                               and isinstance(prev.value, ast.Constant) and prev.value.value is None
+                               for t in prev.targets if isinstance(t, ast.Name)}
+                nxt = blk[i + 1] if i + 1 < len(blk) else None
+                if not (isinstance(nxt, ast.If) and not nxt.orelse and isinstance(nxt.test, ast.Compare)
+                        and isinstance(nxt.test.left, ast.Name) and len(nxt.test.ops) == 1
+                        and isinstance(nxt.test.ops[0], ast.Is) and isinstance(nxt.test.comparators[0], ast.Constant)
+                        and nxt.test.comparators[0].value is None):
+                    return False
+                x = nxt.test.left.id
+                if x not in set_in_branch or x not in none_before:
+                    return False
+                for a in nxt.body:
+                    if isinstance(a, ast.Assign) and len(a.targets) == 1 and isinstance(a.targets[0], ast.Name) \
+                            and a.targets[0].id == x:
+                        for m in ast.walk(a.value):
+                            if isinstance(m, ast.Subscript) and isinstance(m.slice, ast.UnaryOp) \
+                                    and isinstance(m.slice.op, ast.USub) and isinstance(m.slice.operand, ast.Constant) \
+                                    and m.slice.operand.value == 1:
+                                return True
+                return False
+        return False
+
+    sel = [n for n in ast.walk(rw) if isinstance(n, ast.For) and breaking_if(n) is not None]
     if len(sel) != 2:
         raise ExtractError("random_walk: expected two selection loops, found %d" % len(sel))
-    has_else = [bool(n.orelse) for n in sel]
-    if has_else == [False, False]:
-        C["walk_fallback_last"] = False
-    elif has_else == [True, True]:
-        C["walk_fallback_last"] = True
-    else:
-        raise ExtractError("random_walk: selection loops disagree about the fall-back")
-    return C
+    falls = [bool(n.orelse) or sentinel_fallback(n) for n in sel]
+    if falls == [False, False]:
+        return False
+    if falls == [True, True]:
+        return True
+    raise ExtractError("random_walk: selection loops disagree about the fall-back")
